@@ -271,15 +271,17 @@ func (c *compiler) assembleLine(in sourceLine) (Instruction, error) {
 func (c *compiler) compile() (WarriorData, error) {
 	c.loadSymbols()
 
-	err := c.evaluateAssertions()
-	if err != nil {
-		return WarriorData{}, err
-	}
-
+	// cyclic definitions must be refused before anything is expanded:
+	// substituting them (in an assertion, for instance) never ends
 	graph := buildReferenceGraph(c.values)
 	cyclic, cyclicKey := graphContainsCycle(graph)
 	if cyclic {
 		return WarriorData{}, fmt.Errorf("expression '%s' is cyclic", cyclicKey)
+	}
+
+	err := c.evaluateAssertions()
+	if err != nil {
+		return WarriorData{}, err
 	}
 
 	resolved, err := expandExpressions(c.values, graph)
